@@ -140,7 +140,28 @@ func FailurePatternPart(run *report.Run, st *Setup, n int, stream string, judge 
 		r := rng.Derive(uint64(run.Seed), stream, fmt.Sprint(i))
 		pf := spec.DefaultProfile()
 		pf.MinTargets, pf.MaxTargets, pf.EdgeProb, pf.SleepMs = 5, 12, 30, 40
+		// a third of the histories is driven through `grog test` (test targets and their
+		// dependency closure): containment, exit status and retries are the same there
+		viaTest := r.Chance(1, 3)
+		pf.Tests = viaTest
 		s := spec.Gen(r, pf)
+		if viaTest {
+			n := 0
+			for _, t := range s.Targets {
+				if strings.HasSuffix(t.Name, "test") {
+					n++
+				}
+			}
+			if n == 0 {
+				viaTest = false
+			} else {
+				run.Count("histories_driven_through_grog_test", 1)
+			}
+		}
+		buildOpts := BuildOpts{}
+		if viaTest {
+			buildOpts.Cmd = "test"
+		}
 		gcfg := randCfg(r)
 		failFast := r.Chance(1, 3)
 		gcfg.FailFast = failFast
@@ -182,7 +203,7 @@ func FailurePatternPart(run *report.Run, st *Setup, n int, stream string, judge 
 		// neither consume the taint nor fall back to the older result.
 		if r.Chance(1, 2) {
 			setFailureMarkers(env, s, false)
-			if _, obs, vs, err := env.Step(BuildOpts{}, BuildCfg{EnableCache: true}, "warm", false); err != nil || len(vs) > 0 || obs.Res.Exit != 0 {
+			if _, obs, vs, err := env.Step(buildOpts, BuildCfg{EnableCache: true}, "warm", viaTest); err != nil || len(vs) > 0 || obs.Res.Exit != 0 {
 				run.Count("histories_abandoned(warming build diverged)", 1)
 				return
 			}
@@ -220,7 +241,7 @@ func FailurePatternPart(run *report.Run, st *Setup, n int, stream string, judge 
 				setFailureMarkers(env, s, true) // conditions broken by commands hold again at the start
 			}
 			_ = os.Remove(hookLog)
-			p, obs, vs, err := env.Step(BuildOpts{}, cfg, fmt.Sprintf("phase%d", phase), false)
+			p, obs, vs, err := env.Step(buildOpts, cfg, fmt.Sprintf("phase%d", phase), viaTest)
 			if err != nil {
 				run.Infra(err.Error())
 				return
